@@ -195,8 +195,8 @@ def parse_obs(line):
         elif k == "L":
             evs.append(("L", int(f[i + 1]), f[i + 2], f[i + 3], int(f[i + 4])))
             i += 5
-        elif k == "W":
-            evs.append(("W", int(f[i + 1]), int(f[i + 2])))
+        elif k in ("W", "X"):
+            evs.append((k, int(f[i + 1]), int(f[i + 2])))
             i += 3
         elif k == "Q":
             evs.append(("Q", int(f[i + 1]), int(f[i + 2]), int(f[i + 3]), int(f[i + 4]), int(f[i + 5])))
@@ -223,8 +223,81 @@ def impl_projection(obs):
     return " ".join(rs + ["LK", str(len(lk))] + lk)
 
 
+def gen_errload(rng, sid):
+    """Scripted: two requesters of one group overlap so that goswarm's update() finds a live good value when its own
+    fetch came back nil.  Storage holds nothing for the pair; both requests miss; the first fetch taken is answered nil
+    600 ms late (WR); after it is taken the group appears (update after the 1st fetch of the burst); the second
+    requester's fetch gets data and is stored at once; when the nil arrives, the first requester Loads the other's
+    value (created < 1 s ago) and is answered with it.  A third request 40 ms later still finds that value cached."""
+    cl, gr, how = pick_names(rng)
+    nv = 2
+    contents = [gen_content(rng, v + 1) or [part_stop(7)] for v in range(nv)]
+    c, g = rng.randrange(len(cl)), rng.randrange(len(gr))
+    sa = [rng.choice([0, 1]) for _ in range(3)]
+    cap = rng.choice([0, 4])
+    steps = ["M %d 0" % cap, "U %d %d 0" % (c, g), "WR 600",
+             "C 1 %d %d %d 2 %d %d %d %d %d %d" % (c, g, rng.choice([1, 2]), c, g, sa[0], c, g, sa[1]),
+             "Q %d %d %d" % (c, g, sa[2])]
+    line = "scn el%s 1 NC %d %s NG %d %s NV %d %s ST %d %s" % (
+        sid, len(cl), " ".join(hx(x) for x in cl), len(gr), " ".join(hx(x) for x in gr),
+        nv, " ".join(fmt_content(x) for x in contents), len(steps), " ".join(steps))
+    return line, ["errload", how, "error-fetch-finds-live-value"]
+
+
+def errload_schedule(obs):
+    """The schedule (thread, clock) of a gen_errload scenario, from what was observed; None if the run did not take the
+    scripted shape (then only the oracle judges it)."""
+    ev = obs["events"]
+    q = {e[1]: e[2] for e in ev if e[0] == "Q"}
+    r = {}
+    for e in ev:
+        if e[0] == "R":
+            r.setdefault(e[1], e[2])
+    looks = [e for e in ev if e[0] == "L"]
+    if sorted(q) != [0, 1, 2] or sorted(r) != [0, 1, 2] or len(looks) != 2 or looks[0][4] != 0 or looks[1][4] == 0:
+        return None
+    x, y = (0, 1) if r[0] > r[1] else (1, 0)      # x waited for the late nil answer
+    if not (looks[1][1] < r[y] < r[x] < q[2]):
+        return None
+    if not (q[x] < looks[0][1] and q[y] < looks[1][1]):
+        return None
+    head = sorted([(x, q[x]), (y, q[y]),          # both read the cache: nothing there (y possibly after x's fetch)
+                   (x, looks[0][1]), (y, looks[1][1])],   # fetches: nil for x, data for y
+                  key=lambda e: e[1])
+    return head + [
+            (y, looks[1][1]), (y, r[y]),          # y stores and replies
+            (x, r[x]), (x, r[x]),                 # x Loads: live good value; replies with it
+            (2, q[2]), (2, r[2])]                 # served from the cache
+
+
+def gen_default(rng, sid, full):
+    """expire-cache left unset: Configure's SetDefault(10).  Short form: a request 1.2 s after the fetch is still served
+    from the cache; full form (thorough tier): also 9.5 s after it, and no longer 10.3 s after it."""
+    cl, gr, how = pick_names(rng)
+    contents = [gen_content(rng, 1) or [part_ok(1)], gen_content(rng, 2)]
+    c, g = rng.randrange(len(cl)), rng.randrange(len(gr))
+    steps = ["U %d %d 1" % (c, g), "Q %d %d 1" % (c, g), "U %d %d 2" % (c, g), "S 1200", "Q %d %d 0" % (c, g)]
+    if full:
+        steps += ["S 8300", "Q %d %d 1" % (c, g), "S 900", "Q %d %d 1" % (c, g), "Q %d %d 0" % (c, g)]
+    line = "scn df%s -1 NC %d %s NG %d %s NV 2 %s ST %d %s" % (
+        sid, len(cl), " ".join(hx(x) for x in cl), len(gr), " ".join(hx(x) for x in gr),
+        " ".join(fmt_content(x) for x in contents), len(steps), " ".join(steps))
+    return line, ["default", how, "expire-cache-unset"]
+
+
+def configured_lifetime(obs):
+    for e in obs["events"]:
+        if e[0] == "X":
+            return e[2]
+    return None
+
+
 def parse_kind(scen):
     f = scen.split()
+    if f[1].startswith("el"):
+        return "errload"
+    if f[1].startswith("df"):
+        return "default"
     if f[2] == "0":
         return "zero"
     st = f.index("ST")
